@@ -8,13 +8,20 @@ use crate::transport::DeviceType;
 mod script;
 use script::*;
 
+/// `String::from_utf8` for byte strings known to be ASCII (the harness constrains the tag bytes to < 0x80): the
+/// UTF-8 validator of core (word-at-a-time, pointer alignment arithmetic) exhausts CBMC's memory.
+fn from_utf8_ascii(v: Vec<u8>) -> core::result::Result<String, alloc::string::FromUtf8Error> {
+    Ok(unsafe { String::from_utf8_unchecked(v) })
+}
+
 /// C13 K<= (BOUND: STEPS = 12 scripted accesses, tag length 1 or 2 so that two or three iterations of the
 /// retry loop fit; ASCII tag bytes): the mount tag returned by the real `read_mount_tag` has the length and
 /// the bytes of ONE configuration, for every placement of configuration changes between the byte reads.
 #[kani::proof]
 #[kani::unwind(5)]
+#[kani::stub(alloc::string::String::from_utf8, from_utf8_ascii)]
 fn c13_9p_tag_untorn() {
-    let t = ScriptT::any(DeviceType::_9P);
+    let t = ScriptT::any_unrolled(DeviceType::_9P);
     t.assume_honours_generation();
     macro_rules! shape {
         ($k:expr) => {
